@@ -13,9 +13,17 @@ CONSTANTS Family,     \* which workflow
           ErrCap, Retries, AllowCancel,
           DeployWaitChecked, \* FALSE = the engine before the repair of DESIGN 14.1 (deploy stage): after a failed non-blocking
                           \* receive the step declares itself waiting without looking whether the input arrived meanwhile
+          AllOutcomes,    \* TRUE: every step may succeed, return its error output, crash, hang or fail to deploy (trace
+                          \* validation); FALSE: the outcome model of the family (keeps exhaustive exploration small)
+          DetCap,         \* bound on the number of pending detector checks counted per (step, retries) - 2 for exhaustive
+                          \* exploration, large for trace validation
+          SplitHandlers,  \* TRUE: a handler's effects outside the run loop's private state (each input handed to a step, each
+                          \* error report, the output hand-over) are separate steps taken while the run lock is held, as in
+                          \* the code (each has its own critical section / channel operation); FALSE: one atomic step
           BlockingErrors  \* TRUE = the engine before the repair of DESIGN 14.1 (reportError): a send into the full error
                           \* channel blocks while the run lock is held; FALSE = the repaired engine drops the error
 
+ASSUME Retries >= 1 /\ ~(SplitHandlers /\ BlockingErrors)
 Nil == "nil"
 AND == "and"  CAND == "cand"  NONE == "-"
 
@@ -36,10 +44,11 @@ OutRefs(id) == CASE Family = "single" -> {So("a", "outputs", "success")}
                  [] Family \in {"fan2", "fan3"} -> {So(s, "outputs", "success") : s \in Steps}
                  [] Family = "detector" -> {So("a", "crashed", "error"), So("b", "outputs", "success")}
 \* outcome model: which results the plugin may produce; deployment may fail or not
-Beh(s) == CASE Family \in {"fan2", "fan3"} /\ s = "a" -> {"error_out"}
+Beh(s) == CASE AllOutcomes -> {"success", "error_out", "err", "hang"}
+            [] Family \in {"fan2", "fan3"} /\ s = "a" -> {"error_out"}
             [] Family \in {"fan2", "fan3"} -> {"success", "hang"}
             [] OTHER -> {"success", "error_out", "err"}
-DeployMayFail(s) == Family \in {"single", "chain2"}
+DeployMayFail(s) == AllOutcomes \/ Family \in {"single", "chain2"}
 HasHandler(s) == TRUE
 
 Stages == {"deploy", "deploy_failed", "enabling", "starting", "running", "cancelled", "disabled", "outputs", "crashed", "closed"}
@@ -97,12 +106,12 @@ VisitOut(g, n, s, todo) ==
        IN IF r2.err THEN r2 ELSE VisitOut(r2.g, n, s, Tail(todo))
 
 ----------------------------------------------------------------------------
-VARIABLES g, produced, waitingOutputs, outputDone, outCh, errq, lockHolder, blocked, runCtx, parentCancelled,
+VARIABLES g, produced, waitingOutputs, outputDone, outCh, errq, lockHolder, blocked, hq, runCtx, parentCancelled,
           mainPc, result, det, termTodo, termCur, panicked,
           stage, state, prevStage, pend, cont, slotD, slotE, slotR, stepCtx, closedFlag, conn, exec, execRes,
           sigNil, sigQ, resQ, wg, execStarted, fired
 
-rl == <<g, produced, waitingOutputs, outputDone, outCh, errq, lockHolder, blocked, runCtx, parentCancelled,
+rl == <<g, produced, waitingOutputs, outputDone, outCh, errq, lockHolder, blocked, hq, runCtx, parentCancelled,
         mainPc, result, det, termTodo, termCur, panicked, fired>>
 sv == <<stage, state, prevStage, pend, cont, slotD, slotE, slotR, stepCtx, closedFlag, conn, exec, execRes,
         sigNil, sigQ, resQ, wg, execStarted>>
@@ -131,9 +140,10 @@ RunFailedScript == <<Set("crashed", "running"), SC(Nil), Set("crashed", "finishe
                    \o Failures("outputs") \o <<F("closed")>>
 SuccessScript(o) == <<Set("outputs", "running"), SC(Nil), Set("outputs", "finished"), CO(o)>>
 
+NoH == [active |-> FALSE]
 Init ==
   /\ g = G0 /\ produced = {} /\ waitingOutputs = {Out(id) : id \in OutputIds} /\ outputDone = FALSE
-  /\ outCh = "empty" /\ errq = <<>> /\ lockHolder = <<"free">> /\ blocked = <<>> /\ runCtx = FALSE /\ parentCancelled = FALSE
+  /\ outCh = "empty" /\ errq = <<>> /\ lockHolder = <<"free">> /\ blocked = <<>> /\ hq = NoH /\ runCtx = FALSE /\ parentCancelled = FALSE
   /\ mainPc = "kickoff" /\ result = [kind |-> "none", id |-> Nil] /\ det = [s \in Steps |-> [k \in 0..Retries |-> 0]]
   /\ termTodo = {} /\ termCur = Nil /\ panicked = FALSE /\ fired = {}
   /\ stage = [s \in Steps |-> "deploy"] /\ state = [s \in Steps |-> "starting"] /\ prevStage = [s \in Steps |-> Nil]
@@ -164,22 +174,32 @@ NotifyFold(acc, todo) ==
          IF n \in acc.wo /\ wo2 = {} /\ ~acc.od THEN NotifyFold([acc EXCEPT !.wo = wo2, !.errs = Append(@, "nooutputs"), !.cancel = TRUE], Tail(todo))
                                 ELSE NotifyFold([acc EXCEPT !.wo = wo2], Tail(todo))
       ELSE NotifyFold(acc, Tail(todo))
-  ELSE IF n[1] = "st" /\ HasInput(n[3]) THEN NotifyFold(ProvideInto(acc, n[2], n[3]), Tail(todo))
+  ELSE IF n[1] = "st" /\ HasInput(n[3]) THEN NotifyFold([acc EXCEPT !.provs = Append(@, <<n[2], n[3]>>)], Tail(todo))
   ELSE IF n[1] = "out" THEN
       LET r == Resolve(acc.g, n, "R") IN
       IF acc.od THEN NotifyFold([acc EXCEPT !.g = r.g], Tail(todo))
                 ELSE NotifyFold([acc EXCEPT !.g = r.g, !.od = TRUE, !.oc = n[2]], Tail(todo))
   ELSE NotifyFold(acc, Tail(todo))
 
-Acc0(gg) == [g |-> [gg EXCEPT !.ready = {}], slotD |-> slotD, slotE |-> slotE, slotR |-> slotR, state |-> state,
+Acc0(gg) == [g |-> [gg EXCEPT !.ready = {}], slotD |-> slotD, slotE |-> slotE, slotR |-> slotR, state |-> state, provs |-> <<>>,
              errs |-> <<>>, wo |-> waitingOutputs, od |-> outputDone, oc |-> Nil, cancel |-> FALSE]
+\* hand every collected input to its step (atomic mode: all at once, canonical order)
+RECURSIVE ProvideAll(_, _)
+ProvideAll(acc, ps) == IF ps = <<>> THEN acc ELSE ProvideAll(ProvideInto(acc, Head(ps)[1], Head(ps)[2]), Tail(ps))
 Notify(gg) == NotifyFold(Acc0(gg), Seqify(gg.ready))
 
+\* The fallback detector. checkForDeadlocks(retries) is first called at the end of a handler, with the run lock held;
+\* when it finds nothing starting or running, no ready node and no output, it spawns a re-check with one retry less.
+DeadWith(st, gg, od) == (\A x \in Steps : st[x] \notin {"starting", "running"}) /\ gg.ready = {} /\ ~od
+Bump(d, s, k) == [d EXCEPT ![s][k] = IF @ < DetCap THEN @ + 1 ELSE @]
+ArmIfDead(d, s, st, gg, od) == IF s # Nil /\ DeadWith(st, gg, od) THEN Bump(d, s, Retries - 1) ELSE d
 \* apply an accumulated handler result; who = goroutine identity holding L
-Apply(acc, who, armDetFor) ==
+ApplyAtomic(acc0, who, armDetFor) ==
+  LET acc == ProvideAll(acc0, acc0.provs) IN
   /\ g' = acc.g /\ slotD' = acc.slotD /\ slotE' = acc.slotE /\ slotR' = acc.slotR /\ state' = acc.state
   /\ waitingOutputs' = acc.wo /\ outputDone' = acc.od
   /\ outCh' = IF acc.oc # Nil THEN acc.oc ELSE outCh
+  /\ hq' = hq
   /\ LET room == ErrCap - Len(errq)
          n == Len(acc.errs) IN
      IF n <= room \/ ~BlockingErrors
@@ -188,16 +208,100 @@ Apply(acc, who, armDetFor) ==
        ELSE /\ errq' = errq \o SubSeq(acc.errs, 1, room)
             /\ blocked' = <<who, SubSeq(acc.errs, room + 1, n)>> /\ lockHolder' = who
             /\ runCtx' = (runCtx \/ (acc.cancel /\ room > 0))
-  /\ det' = IF armDetFor = Nil THEN det ELSE [det EXCEPT ![armDetFor][Retries] = IF @ < 2 THEN @ + 1 ELSE @]
+  /\ det' = ArmIfDead(det, armDetFor, acc.state, acc.g, acc.od)
+\* split mode: the private part (graph, waiting outputs) changes now; what leaves the run loop is queued in hq and the
+\* lock stays with the handler until HEnd
+ApplySplit(acc, who, armDetFor) ==
+  /\ g' = acc.g /\ waitingOutputs' = acc.wo /\ outputDone' = acc.od
+  /\ hq' = [active |-> TRUE, who |-> who, provs |-> {acc.provs[i] : i \in DOMAIN acc.provs}, errs |-> acc.errs, oc |-> acc.oc,
+            cancel |-> acc.cancel, arm |-> armDetFor, checked |-> FALSE, k |-> Retries, seen |-> [x \in Steps |-> "unread"]]
+  /\ lockHolder' = who
+  /\ UNCHANGED <<slotD, slotE, slotR, state, outCh, errq, blocked, runCtx, det>>
+Apply(acc, who, armDetFor) == IF SplitHandlers THEN ApplySplit(acc, who, armDetFor) ELSE ApplyAtomic(acc, who, armDetFor)
 
 U0(v) == UNCHANGED v
 Unblock ==   \* a blocked sender proceeds when the channel has room
   /\ blocked # <<>> /\ Len(errq) < ErrCap
   /\ errq' = Append(errq, Head(blocked[2]))
   /\ IF Len(blocked[2]) = 1 THEN blocked' = <<>> /\ lockHolder' = <<"free">> ELSE blocked' = <<blocked[1], Tail(blocked[2])>> /\ U0(lockHolder)
-  /\ runCtx' = TRUE
+  /\ runCtx' = TRUE /\ hq' = hq
   /\ UNCHANGED <<g, produced, waitingOutputs, outputDone, outCh, parentCancelled, mainPc, result, det, termTodo, termCur, panicked, fired>>
   /\ UNCHANGED sv
+
+----------------------------------------------------------------------------
+\* A step that has left its lifecycle (cont exit/done: it failed, was closed, or delivered its result) is no pending
+\* work, whatever is still buffered for it or still running on its behalf (an abandoned plugin after a forced close).
+Live(s) == cont[s] \notin {"exit", "done"}
+Quiescent == /\ \A s \in Steps : /\ pend[s] = <<>>
+                                 /\ Live(s) => /\ slotD[s] = 0 /\ slotE[s] = "empty" /\ slotR[s] = 0
+                                                /\ exec[s] # "running" /\ resQ[s] = <<>>
+                                                /\ cont[s] \in {"awaitD", "awaitE", "awaitR"}
+             /\ g.ready = {}
+\* some step has a notification (or the state update that precedes it) queued: the window of DESIGN 14.2
+InFlight == \E s \in Steps : pend[s] # <<>>
+\* split mode: the handler that holds the run lock hands over what it computed, one channel operation at a time
+HRest == <<g, produced, waitingOutputs, outputDone, lockHolder, blocked, parentCancelled, mainPc, result, termTodo, termCur, panicked, fired>>
+HStepRest == <<stage, prevStage, pend, cont, stepCtx, closedFlag, conn, exec, execRes, sigNil, sigQ, resQ, wg, execStarted>>
+HProvide(s, st) ==
+  /\ hq.active /\ <<s, st>> \in hq.provs
+  /\ LET acc == ProvideInto([slotD |-> slotD, slotE |-> slotE, slotR |-> slotR, state |-> state], s, st) IN
+       slotD' = acc.slotD /\ slotE' = acc.slotE /\ slotR' = acc.slotR /\ state' = acc.state
+  /\ hq' = [hq EXCEPT !.provs = @ \ {<<s, st>>}]
+  /\ UNCHANGED <<outCh, errq, runCtx, det>> /\ UNCHANGED HRest /\ UNCHANGED HStepRest
+HErr ==
+  /\ hq.active /\ hq.errs # <<>>
+  /\ errq' = IF Len(errq) < ErrCap THEN Append(errq, Head(hq.errs)) ELSE errq      \* (the repaired engine drops it when full)
+  /\ Len(errq) < ErrCap \/ ~BlockingErrors
+  /\ hq' = [hq EXCEPT !.errs = Tail(@)]
+  /\ runCtx' = (runCtx \/ (hq.cancel /\ Len(hq.errs) = 1))
+  /\ UNCHANGED <<slotD, slotE, slotR, state, outCh, det>> /\ UNCHANGED HRest /\ UNCHANGED HStepRest
+HOut ==
+  /\ hq.active /\ hq.oc # Nil
+  /\ outCh' = hq.oc /\ hq' = [hq EXCEPT !.oc = Nil]
+  /\ UNCHANGED <<slotD, slotE, slotR, state, errq, runCtx, det>> /\ UNCHANGED HRest /\ UNCHANGED HStepRest
+\* A deadlock check (the first one at the end of a handler, re-checks in goroutines of their own - DetWake), always under
+\* the run lock: countStates reads every step's state, one step lock at a time (HRead: NOT one atomic snapshot), then
+\* the verdict is taken from what was read (HCheck): nothing starting or running, no ready node, no output.  A dead
+\* verdict with retries left spawns a re-check (which may see the cancelled context and leave before the handler has
+\* returned); with no retries left it reports "no steps" and cancels the run.
+Checking == hq.active /\ hq.provs = {} /\ hq.errs = <<>> /\ hq.oc = Nil /\ hq.arm # Nil /\ ~hq.checked
+HRead(x) ==
+  /\ Checking /\ hq.seen[x] = "unread"
+  /\ hq' = [hq EXCEPT !.seen[x] = state[x]]
+  /\ UNCHANGED <<slotD, slotE, slotR, state, outCh, errq, runCtx, det>> /\ UNCHANGED HRest /\ UNCHANGED HStepRest
+HCheckWith(endNow) ==
+  /\ Checking /\ \A x \in Steps : hq.seen[x] # "unread"
+  /\ LET dead == DeadWith(hq.seen, g, outputDone) IN
+       IF ~dead THEN UNCHANGED <<det, errq, runCtx, fired>>
+       ELSE IF hq.k > 0 THEN det' = Bump(det, hq.arm, hq.k - 1) /\ UNCHANGED <<errq, runCtx, fired>>
+       ELSE /\ fired' = fired \cup {IF Quiescent THEN "quiescent" ELSE IF InFlight THEN "inflight" ELSE "busy"}
+            /\ errq' = IF Len(errq) < ErrCap THEN Append(errq, "nosteps") ELSE errq
+            /\ runCtx' = TRUE /\ UNCHANGED det
+  /\ hq' = IF endNow THEN NoH ELSE [hq EXCEPT !.checked = TRUE]
+  /\ lockHolder' = IF endNow THEN <<"free">> ELSE lockHolder
+  /\ UNCHANGED <<slotD, slotE, slotR, state, outCh>>
+  /\ UNCHANGED <<g, produced, waitingOutputs, outputDone, blocked, parentCancelled, mainPc, result, termTodo, termCur, panicked>>
+  /\ UNCHANGED HStepRest
+HCheck == HCheckWith(FALSE)
+\* a re-check goroutine wakes up and takes the run lock
+DetWake(s, k) ==
+  /\ SplitHandlers /\ det[s][k] > 0 /\ lockHolder = <<"free">>
+  /\ det' = [det EXCEPT ![s][k] = @ - 1]
+  /\ hq' = [active |-> TRUE, who |-> <<"det", s>>, provs |-> {}, errs |-> <<>>, oc |-> Nil, cancel |-> FALSE, arm |-> s, checked |-> FALSE,
+            k |-> k, seen |-> [x \in Steps |-> "unread"]]
+  /\ lockHolder' = <<"det", s>>
+  /\ UNCHANGED <<slotD, slotE, slotR, state, outCh, errq, runCtx>>
+  /\ UNCHANGED <<g, produced, waitingOutputs, outputDone, blocked, parentCancelled, mainPc, result, termTodo, termCur, panicked, fired>>
+  /\ UNCHANGED HStepRest
+HEnd ==
+  /\ hq.active /\ hq.provs = {} /\ hq.errs = <<>> /\ hq.oc = Nil /\ (hq.arm = Nil \/ hq.checked)
+  /\ det' = det
+  /\ runCtx' = (runCtx \/ hq.cancel)
+  /\ lockHolder' = <<"free">> /\ hq' = NoH
+  /\ UNCHANGED <<slotD, slotE, slotR, state, outCh, errq>>
+  /\ UNCHANGED <<g, produced, waitingOutputs, outputDone, blocked, parentCancelled, mainPc, result, termTodo, termCur, panicked, fired>>
+  /\ UNCHANGED HStepRest
+HNext == HErr \/ HOut \/ HCheck \/ HEnd \/ (\E s \in Steps, st \in Stages : HProvide(s, st)) \/ (\E x \in Steps : HRead(x))
 
 ----------------------------------------------------------------------------
 \* step goroutine: micro-ops. Handlers need L.
@@ -290,10 +394,14 @@ AwaitR(s) == /\ Idle(s) /\ cont[s] = "awaitR"
              /\ \/ slotR[s] = 1 /\ slotR' = [slotR EXCEPT ![s] = 0] /\ Go(s, <<SetSt("running")>>, "readSchema")
                 \/ stepCtx[s] /\ U0(slotR) /\ Go(s, ClosedEarly("running", TRUE), "exit")
              /\ UNCHANGED <<rl, stage, state, prevStage, slotD, slotE, stepCtx, closedFlag, conn, exec, execRes, sigNil, sigQ, resQ, wg, execStarted>>
+\* after the run input was received the step looks at its context once more (a stop condition or a close request that
+\* fired meanwhile wins: the plugin is not started); otherwise the schema is read and the execution goroutine spawned
 ReadSchema(s) == /\ Idle(s) /\ cont[s] = "readSchema"
-                 /\ wg' = [wg EXCEPT ![s] = @ + 1] /\ exec' = [exec EXCEPT ![s] = "running"]
-                 /\ execStarted' = execStarted \cup {s}
-                 /\ Go(s, <<Set("running", "running"), SC("started")>>, "awaitRes")
+                 /\ \/ /\ wg' = [wg EXCEPT ![s] = @ + 1] /\ exec' = [exec EXCEPT ![s] = "running"]
+                       /\ execStarted' = execStarted \cup {s}
+                       /\ Go(s, <<Set("running", "running"), SC("started")>>, "awaitRes")
+                    \/ /\ stepCtx[s] /\ Go(s, ClosedEarly("running", TRUE), "exit")
+                       /\ UNCHANGED <<wg, exec, execStarted>>
                  /\ UNCHANGED <<rl, stage, state, prevStage, slotD, slotE, slotR, stepCtx, closedFlag, conn, execRes, sigNil, sigQ, resQ>>
 TakeResult(s) == /\ resQ[s] # <<>> /\ resQ' = [resQ EXCEPT ![s] = Tail(@)]
                  /\ IF Head(resQ[s]) = "err" THEN Go(s, RunFailedScript, "exit") ELSE Go(s, SuccessScript(Head(resQ[s])), "exit")
@@ -328,33 +436,23 @@ ExecDone(s) == /\ exec[s] = "published" /\ wg' = [wg EXCEPT ![s] = @ - 1] /\ exe
 
 ----------------------------------------------------------------------------
 \* detector: det[s][k] = number of armed checks with k retries left, registered in step s's wait group
-\* A step that has left its lifecycle (cont exit/done: it failed, was closed, or delivered its result) is no pending
-\* work, whatever is still buffered for it or still running on its behalf (an abandoned plugin after a forced close).
-Live(s) == cont[s] \notin {"exit", "done"}
-Quiescent == /\ \A s \in Steps : /\ pend[s] = <<>>
-                                 /\ Live(s) => /\ slotD[s] = 0 /\ slotE[s] = "empty" /\ slotR[s] = 0
-                                                /\ exec[s] # "running" /\ resQ[s] = <<>>
-                                                /\ cont[s] \in {"awaitD", "awaitE", "awaitR"}
-             /\ g.ready = {}
-\* some step has a notification (or the state update that precedes it) queued: the window of DESIGN 14.2
-InFlight == \E s \in Steps : pend[s] # <<>>
 DetectorFire(s, k) ==
-  /\ det[s][k] > 0 /\ lockHolder = <<"free">>
-  /\ LET dead == (\A x \in Steps : state[x] \notin {"starting", "running"}) /\ g.ready = {} /\ ~outputDone IN
+  /\ ~SplitHandlers /\ det[s][k] > 0 /\ lockHolder = <<"free">>
+  /\ LET dead == DeadWith(state, g, outputDone) IN
      IF ~dead THEN /\ det' = [det EXCEPT ![s][k] = @ - 1]
-                   /\ UNCHANGED <<errq, blocked, lockHolder, runCtx, fired>>
-     ELSE IF k > 0 THEN /\ det' = [det EXCEPT ![s][k] = @ - 1, ![s][k - 1] = IF @ < 2 THEN @ + 1 ELSE @]
-                        /\ UNCHANGED <<errq, blocked, lockHolder, runCtx, fired>>
+                   /\ UNCHANGED <<errq, blocked, hq, lockHolder, runCtx, fired>>
+     ELSE IF k > 0 THEN /\ det' = Bump([det EXCEPT ![s][k] = @ - 1], s, k - 1)
+                        /\ UNCHANGED <<errq, blocked, hq, lockHolder, runCtx, fired>>
      ELSE /\ det' = [det EXCEPT ![s][k] = @ - 1]
           /\ fired' = fired \cup {IF Quiescent THEN "quiescent" ELSE IF InFlight THEN "inflight" ELSE "busy"}
-          /\ IF Len(errq) < ErrCap THEN errq' = Append(errq, "nosteps") /\ runCtx' = TRUE /\ UNCHANGED <<blocked, lockHolder>>
-             ELSE IF ~BlockingErrors THEN runCtx' = TRUE /\ UNCHANGED <<errq, blocked, lockHolder>>
-             ELSE blocked' = <<<<"det", s>>, <<"nosteps">>>> /\ lockHolder' = <<"det", s>> /\ UNCHANGED <<errq, runCtx>>
+          /\ IF Len(errq) < ErrCap THEN errq' = Append(errq, "nosteps") /\ runCtx' = TRUE /\ UNCHANGED <<blocked, hq, lockHolder>>
+             ELSE IF ~BlockingErrors THEN runCtx' = TRUE /\ UNCHANGED <<errq, blocked, hq, lockHolder>>
+             ELSE blocked' = <<<<"det", s>>, <<"nosteps">>>> /\ lockHolder' = <<"det", s>> /\ UNCHANGED <<errq, runCtx, hq>>
   /\ UNCHANGED <<g, produced, waitingOutputs, outputDone, outCh, parentCancelled, mainPc, result, termTodo, termCur, panicked>>
   /\ UNCHANGED sv
 DetectorCtxExit(s, k) ==
-  /\ det[s][k] > 0 /\ k < Retries /\ runCtx /\ det' = [det EXCEPT ![s][k] = @ - 1]
-  /\ UNCHANGED <<g, produced, waitingOutputs, outputDone, outCh, errq, lockHolder, blocked, runCtx, parentCancelled, mainPc, result, termTodo, termCur, panicked, fired>>
+  /\ det[s][k] > 0 /\ runCtx /\ det' = [det EXCEPT ![s][k] = @ - 1]
+  /\ UNCHANGED <<g, produced, waitingOutputs, outputDone, outCh, errq, lockHolder, blocked, hq, runCtx, parentCancelled, mainPc, result, termTodo, termCur, panicked, fired>>
   /\ UNCHANGED sv
 DetLive(s) == \E k \in 0..Retries : det[s][k] > 0
 
@@ -371,18 +469,18 @@ MainSelectOutput ==
   /\ mainPc = "select" /\ outCh \notin {"empty", "taken"}
   /\ result' = [kind |-> "output", id |-> outCh] /\ outCh' = "taken" /\ Drain /\ mainPc' = "terminate"
   /\ termTodo' = Steps
-  /\ UNCHANGED <<g, produced, waitingOutputs, outputDone, lockHolder, blocked, runCtx, parentCancelled, det, termCur, panicked, fired>>
+  /\ UNCHANGED <<g, produced, waitingOutputs, outputDone, lockHolder, blocked, hq, runCtx, parentCancelled, det, termCur, panicked, fired>>
   /\ UNCHANGED sv
 MainSelectCtx ==
   /\ mainPc = "select" /\ runCtx
   /\ IF errq # <<>> THEN result' = [kind |-> "error", id |-> Head(errq)] /\ mainPc' = "terminate" /\ termTodo' = Steps
      ELSE result' = result /\ mainPc' = "grace" /\ termTodo' = termTodo
   /\ Drain
-  /\ UNCHANGED <<g, produced, waitingOutputs, outputDone, outCh, lockHolder, blocked, runCtx, parentCancelled, det, termCur, panicked, fired>>
+  /\ UNCHANGED <<g, produced, waitingOutputs, outputDone, outCh, lockHolder, blocked, hq, runCtx, parentCancelled, det, termCur, panicked, fired>>
   /\ UNCHANGED sv
 CallerCancel ==
-  /\ AllowCancel /\ ~parentCancelled /\ mainPc = "select" /\ parentCancelled' = TRUE /\ runCtx' = TRUE
-  /\ UNCHANGED <<g, produced, waitingOutputs, outputDone, outCh, errq, lockHolder, blocked, mainPc, result, det, termTodo, termCur, panicked, fired>>
+  /\ AllowCancel /\ ~parentCancelled /\ mainPc \in {"kickoff", "select"} /\ parentCancelled' = TRUE /\ runCtx' = TRUE
+  /\ UNCHANGED <<g, produced, waitingOutputs, outputDone, outCh, errq, lockHolder, blocked, hq, mainPc, result, det, termTodo, termCur, panicked, fired>>
   /\ UNCHANGED sv
 \* grace: terminateAllSteps runs concurrently (modelled: all steps get ForceClose'd in some order) while waiting
 MainGrace ==
@@ -391,39 +489,48 @@ MainGrace ==
      \/ errq # <<>> /\ result' = [kind |-> "error", id |-> Head(errq)] /\ Drain /\ U0(outCh)
      \/ result' = [kind |-> "error", id |-> "aborted"] /\ Drain /\ U0(outCh)     \* 5 s timer
   /\ mainPc' = "terminate" /\ termTodo' = Steps
-  /\ UNCHANGED <<g, produced, waitingOutputs, outputDone, lockHolder, blocked, runCtx, parentCancelled, det, termCur, panicked, fired>>
+  /\ UNCHANGED <<g, produced, waitingOutputs, outputDone, lockHolder, blocked, hq, runCtx, parentCancelled, det, termCur, panicked, fired>>
   /\ UNCHANGED sv
 GraceForceClose(s) ==   \* the spawned terminateAllSteps during grace: only its cancel effect matters before the deferred one
   /\ mainPc = "grace" /\ ~closedFlag[s]
   /\ closedFlag' = [closedFlag EXCEPT ![s] = TRUE] /\ stepCtx' = [stepCtx EXCEPT ![s] = TRUE]
   /\ UNCHANGED rl
   /\ UNCHANGED <<stage, state, prevStage, pend, cont, slotD, slotE, slotR, conn, exec, execRes, sigNil, sigQ, resQ, wg, execStarted>>
+\* terminateAllSteps: ForceClose of one step after the other - the call, then (unless the step was closed before)
+\* the cancellation of its context, then the wait for its goroutines
 TermPick(s) ==
   /\ mainPc = "terminate" /\ termCur = Nil /\ s \in termTodo
   /\ termCur' = s /\ termTodo' = termTodo \ {s}
+  /\ UNCHANGED <<g, produced, waitingOutputs, outputDone, outCh, errq, lockHolder, blocked, hq, runCtx, parentCancelled, mainPc, result, det, panicked, fired>>
+  /\ UNCHANGED sv
+TermCancel(s) ==
+  /\ mainPc = "terminate" /\ termCur = s /\ ~closedFlag[s]
   /\ closedFlag' = [closedFlag EXCEPT ![s] = TRUE] /\ stepCtx' = [stepCtx EXCEPT ![s] = TRUE]
-  /\ UNCHANGED <<g, produced, waitingOutputs, outputDone, outCh, errq, lockHolder, blocked, runCtx, parentCancelled, mainPc, result, det, panicked, fired>>
+  /\ UNCHANGED rl
   /\ UNCHANGED <<stage, state, prevStage, pend, cont, slotD, slotE, slotR, conn, exec, execRes, sigNil, sigQ, resQ, wg, execStarted>>
 TermWait ==
-  /\ mainPc = "terminate" /\ termCur # Nil /\ wg[termCur] = 0 /\ ~DetLive(termCur)
+  /\ mainPc = "terminate" /\ termCur # Nil /\ closedFlag[termCur] /\ wg[termCur] = 0 /\ ~DetLive(termCur)
   /\ termCur' = Nil
-  /\ UNCHANGED <<g, produced, waitingOutputs, outputDone, outCh, errq, lockHolder, blocked, runCtx, parentCancelled, mainPc, result, det, termTodo, panicked, fired>>
+  /\ UNCHANGED <<g, produced, waitingOutputs, outputDone, outCh, errq, lockHolder, blocked, hq, runCtx, parentCancelled, mainPc, result, det, termTodo, panicked, fired>>
   /\ UNCHANGED sv
 MainReturn ==
   /\ mainPc = "terminate" /\ termCur = Nil /\ termTodo = {}
   /\ mainPc' = "returned" /\ runCtx' = TRUE
-  /\ UNCHANGED <<g, produced, waitingOutputs, outputDone, outCh, errq, lockHolder, blocked, parentCancelled, result, det, termTodo, termCur, panicked, fired>>
+  /\ UNCHANGED <<g, produced, waitingOutputs, outputDone, outCh, errq, lockHolder, blocked, hq, parentCancelled, result, det, termTodo, termCur, panicked, fired>>
   /\ UNCHANGED sv
 
-StepNext(s) == StepMicro(s) \/ TryD(s) \/ AwaitD(s) \/ Deploy(s) \/ PostDeploy(s) \/ AwaitE(s) \/ TryR(s) \/ AwaitR(s)
-               \/ ReadSchema(s) \/ AwaitRes(s) \/ CancelSend(s) \/ AwaitResCancel(s) \/ Exit(s)
+\* a goroutine that is inside a handler (split mode) does nothing else until the handler has ended
+Busy(who) == hq.active /\ hq.who = who
+StepNext(s) == (~Busy(<<"step", s>>) /\ (StepMicro(s) \/ TryD(s) \/ AwaitD(s) \/ Deploy(s) \/ PostDeploy(s) \/ AwaitE(s) \/ TryR(s) \/ AwaitR(s)
+                                         \/ ReadSchema(s) \/ AwaitRes(s) \/ CancelSend(s) \/ AwaitResCancel(s) \/ Exit(s)))
                \/ PluginReturn(s) \/ ExecPublish(s) \/ ExecDone(s)
-DetNext == \E s \in Steps, k \in 0..Retries : DetectorFire(s, k) \/ DetectorCtxExit(s, k)
-MainNext == MainKickoff \/ MainSelectOutput \/ MainSelectCtx \/ MainGrace \/ MainReturn \/ TermWait
-            \/ \E s \in Steps : TermPick(s) \/ GraceForceClose(s)
-Next == (\E s \in Steps : StepNext(s)) \/ DetNext \/ MainNext \/ Unblock \/ CallerCancel
+DetNext == \E s \in Steps, k \in 0..Retries : DetectorFire(s, k) \/ DetWake(s, k) \/ DetectorCtxExit(s, k)
+MainNext == (~Busy(<<"main">>) /\ (MainKickoff \/ MainSelectOutput \/ MainSelectCtx \/ MainGrace \/ MainReturn \/ TermWait
+                                      \/ \E s \in Steps : TermPick(s) \/ TermCancel(s)))
+            \/ \E s \in Steps : GraceForceClose(s)
+Next == (\E s \in Steps : StepNext(s)) \/ DetNext \/ MainNext \/ Unblock \/ CallerCancel \/ HNext
 Spec == Init /\ [][Next]_vars
-FairSpec == Spec /\ WF_vars(MainNext) /\ WF_vars(DetNext) /\ WF_vars(Unblock) /\ \A s \in Steps : WF_vars(StepNext(s))
+FairSpec == Spec /\ WF_vars(MainNext) /\ WF_vars(DetNext) /\ WF_vars(Unblock) /\ WF_vars(HNext) /\ \A s \in Steps : WF_vars(StepNext(s))
 
 ----------------------------------------------------------------------------
 NoPanic == ~panicked
